@@ -42,6 +42,11 @@ abbrev Sets := List (Option (List Rule))
 
 def Cost.add (a b : Cost) : Cost := ⟨a.steps + b.steps, a.alloc + b.alloc⟩
 
+/-- `len(m)` of a Go map keyed by `glyph.ID` (uint16): at most 65536 entries.  The decoded entry
+lists have distinct keys (coverage: `CovOk` in the proofs; class tables: ascending ranges), so
+this is their length; the `min` only spares the cost theorems a length invariant. -/
+def mapLen (l : List α) : Nat := min 65536 l.length
+
 /-- checked slice expression `xs[:k]` -/
 def sliceTo (site : String) (xs : List α) (k : Nat) : Outcome (List α) :=
   if k ≤ xs.length then .ok (xs.take k) else .panic site
@@ -155,7 +160,7 @@ def prune1 (cov : List (Nat × Nat)) (offs : List Nat) (c : Cost) :
     Outcome (List (Nat × Nat) × List Nat × Cost) :=
   if cov.length > offs.length then
     let keep := cov.filter (fun p => p.2 < offs.length)
-    .ok (keep, offs, (c.tick cov.length).mem (cov.length - keep.length))
+    .ok (keep, offs, (c.tick (mapLen cov)).mem (mapLen cov - keep.length))
   else do
     let o ← sliceTo "nested.go:696#chainedSeqRuleSetOffsets[:len(cov)]" offs cov.length
     pure (cov, o, c)
@@ -167,7 +172,7 @@ def read1 (b : Bytes) (pos : Nat) : Outcome (Sub × Cost) := do
   let (cov0, cc) ← coverageRead b (pos + covOff)
   let (cov, offs, c) ← prune1 cov0 offs0 (Cost.add c cc)
   let n ← covEncodeLen cov
-  let c := (c.tick (3 * cov.length)).mem cov.length        -- encInfo: `rev` and its three loops
+  let c := (c.tick (3 * mapLen cov)).mem (mapLen cov)        -- encInfo: `rev` and its three loops
   let total := 6 + 2 * offs.length + n
   let c ← mkSlice "nested.go:702#make([][]*ChainedSeqRule, len(chainedSeqRuleSetOffsets))" offs.length c
   let (sets, _, c) ← setsLoop1 b pos offs.length offs 0 total [] c
@@ -199,11 +204,17 @@ def setsLoop2 (b : Bytes) (pos n : Nat) : List Nat → Nat → Sets → Cost →
 one per glyph between the smallest and the largest key -/
 def appendLenSteps (es : List (Nat × Nat)) : Nat :=
   if es.isEmpty then 0
-  else es.length + (SfntV.Otl.ClassDef.maxGid es - SfntV.Otl.ClassDef.minGid es + 1)
+  else mapLen es + min 65536 (SfntV.Otl.ClassDef.maxGid es - SfntV.Otl.ClassDef.minGid es + 1)
 
 /-- number of rules in all sets (iterations of the size pass nested.go:1104-1128) -/
 def rulesCount (sets : Sets) : Nat :=
   (sets.map fun s => match s with | some rs => rs.length | none => 0).sum
+
+/-- nested.go:1034-1036: `if numClasses < len(offsets) { offsets = offsets[:numClasses] }` -/
+def trunc2 (offs0 : List Nat) (numClasses : Nat) : Outcome (List Nat) :=
+  if numClasses < offs0.length
+  then sliceTo "nested.go:1035#chainedClassSeqRuleSetOffsets[:numClasses]" offs0 numClasses
+  else .ok offs0
 
 /-- `readChainedSeqContext2(p, pos)` -/
 def read2 (b : Bytes) (pos : Nat) : Outcome (Sub × Cost) := do
@@ -219,14 +230,12 @@ def read2 (b : Bytes) (pos : Nat) : Outcome (Sub × Cost) := do
   let (cl, c4) ← classdefRead b (pos + lOff)
   let c := Cost.add (Cost.add (Cost.add (Cost.add c c1) c2) c3) c4
   let numClasses := SfntV.Otl.Ctx.numClasses ci
-  let c := c.tick ci.length                                   -- `NumClasses` walks the map
-  let offs ← if numClasses < offs0.length
-    then sliceTo "nested.go:1035#chainedClassSeqRuleSetOffsets[:numClasses]" offs0 numClasses
-    else .ok offs0
+  let c := c.tick (mapLen ci)                                 -- `NumClasses` walks the map
+  let offs ← trunc2 offs0 numClasses
   let c ← mkSlice "nested.go:1038#make([][]*ChainedClassSeqRule, len(chainedClassSeqRuleSetOffsets))" offs.length c
   let (sets, c) ← setsLoop2 b pos offs.length offs 0 [] c
   let n ← covEncodeLen (cov)
-  let c := (c.tick (3 * cov.length)).mem cov.length
+  let c := (c.tick (3 * mapLen cov)).mem (mapLen cov)
   let c := c.tick (appendLenSteps cb + appendLenSteps ci + appendLenSteps cl)
   let total := 12 + 2 * sets.length + n + SfntV.Otl.Ctx.appendLenOf cb + SfntV.Otl.Ctx.appendLenOf ci +
     SfntV.Otl.Ctx.appendLenOf cl
